@@ -139,3 +139,42 @@ Example C17_nonvacuous :
   | inl _ => (0, 0, 0, 0, 0, 0)
   end = (13, 1456, 104, 13, 1456, 104).
 Proof. vm_compute. repeat split; reflexivity. Qed.
+
+(* ---------------------------------------------------------------- submission bulks *)
+(* _start_pilot_bulk fetches the resource config once and prepares every pilot
+   of the bulk from that one object.  In the model a bulk is sized pilot by
+   pilot: the figures of a pilot are those it would get on its own, whatever
+   was prepared before it (for ANY tables and requests). *)
+Theorem bulk_sized_pilot_by_pilot :
+  forall (Tb : tables) site rname schema (qs : list request) (ss : list sized),
+    launch_bulk Tb site rname schema qs = inr ss ->
+    Forall2 (fun q s => launch Tb site rname schema q = inr s) qs ss.
+Proof. exact bulk_pilot_by_pilot_l. Qed.
+Print Assumptions bulk_sized_pilot_by_pilot.
+
+(* every bulk of valid requests on a shipped configuration is launched, and EVERY
+   pilot of it meets the sizing clauses (the harness evaluates the same clauses on
+   every pilot of a bulk prepared by the real _start_pilot_bulk) *)
+Theorem shipped_bulks_sized :
+  forall site rname schema (qs : list request),
+    In (site, rname, schema) (all_config_schemas gen_tables) ->
+    (forall q, In q qs -> match q_env_smt q with None => True | Some z => 1 <= z end) ->
+    (forall q ma p, In q qs -> platform site rname schema (q_env_smt q) = inr (ma, p) ->
+                    valid_request ma p q = true) ->
+    exists ss, launch_bulk gen_tables site rname schema qs = inr ss /\
+      Forall2 (fun q s => exists ma p,
+                 platform site rname schema (q_env_smt q) = inr (ma, p) /\
+                 ok_min_nodes p q s = true /\ ok_job_counts p s = true /\ ok_agent_same s = true) qs ss.
+Proof. exact shipped_bulks_sized_l. Qed.
+Print Assumptions shipped_bulks_sized.
+
+(* non-vacuity for bulks: three pilots of 448 cores on ornl.frontier (SMT 2) get
+   4 nodes each -- the second and third are sized like the first *)
+Example C17_bulk_nonvacuous :
+  let q := {| q_nodes := 0; q_cores := 448; q_gpus := 0; q_backup := 0;
+              q_present := ["project"]; q_env_smt := None |} in
+  match launch_bulk gen_tables "ornl" "frontier" (Some "local") [q; q; q] with
+  | inr ss => map (fun s => (s_node_count s, s_total_cpu s, a_cpn s)) ss
+  | inl _ => []
+  end = [(4, 448, 128); (4, 448, 128); (4, 448, 128)].
+Proof. vm_compute. reflexivity. Qed.
